@@ -800,8 +800,8 @@ func minInt(a, b int) int {
 // fmaProductOutOfRange is the predicate of known finding D15: the exact product
 // x*y leaves the exponent range although it is only an intermediate value.
 func fmaProductOutOfRange(k *opCase) bool {
-	if k.op != "FMA" || k.x.Form != oracle.Finite || k.y.Form != oracle.Finite {
-		return false
+	if k.op != "FMA" || k.x.Form != oracle.Finite || k.y.Form != oracle.Finite || k.u.Form == oracle.Zero {
+		return false // (a zero addend is handled by Mul alone, which saturates correctly: not part of the finding)
 	}
 	le := oracle.Digits(new(big.Int).Mul(k.x.Coef, k.y.Coef)) + k.x.Exp + k.y.Exp
 	return le < oracle.MinExp || le > oracle.MaxExp
